@@ -309,6 +309,13 @@ impl<'a> TraceGen<'a> {
             }
             for _ in 0..rng.below(5) {
                 lines.push(self.frame_line(rng));
+                if rng.pct(8) {
+                    // recursion: the same frame line several times in a row
+                    let l = lines.last().unwrap().clone();
+                    for _ in 0..rng.range(2, 4) {
+                        lines.push(l.clone());
+                    }
+                }
                 if rng.pct(6) {
                     lines.push(String::new());
                 }
@@ -349,7 +356,17 @@ impl<'a> TraceGen<'a> {
             } else {
                 t.push('N');
             }
+            let mut last_frame: Option<String> = None;
             for _ in 0..nframes {
+                if let Some(lf) = &last_frame {
+                    // recursion: the same frame several times in a row
+                    if rng.pct(12) {
+                        for _ in 0..rng.range(1, 4) {
+                            t.push_str(lf);
+                        }
+                        continue;
+                    }
+                }
                 let c = if canonical { self.class_canon(rng) } else { self.class(rng) };
                 let mut m = self.method_for(rng, &c);
                 if canonical && m.chars().any(|ch| ch == '.' || ch == '(' || ch.is_whitespace()) {
@@ -361,7 +378,9 @@ impl<'a> TraceGen<'a> {
                 } else {
                     None
                 };
-                t.push_str(&format!(" F {} {} {} {}", hxs(&c), hxs(&m), self.line(rng), opt_hxs(file)));
+                let fr = format!(" F {} {} {} {}", hxs(&c), hxs(&m), self.line(rng), opt_hxs(file));
+                t.push_str(&fr);
+                last_frame = Some(fr);
             }
         }
         t
@@ -878,6 +897,22 @@ pub fn gen_c04(rng: &mut Rng, tier: &str, out: &mut Out) {
         }
         mth_queries(out, true, &u, 30);
     }
+    // an ambiguous group whose FIRST original name is the very first string of the file (string-table
+    // offset 0 is a valid offset, not "none")
+    for first in ["a", "o.A", "m"] {
+        for ranged in [false, true] {
+            for second in ["b", "a"] {
+                let pre = if ranged { "1:2:" } else { "" };
+                let t = format!("{f} -> {f}:\n    {p}void {f}() -> m\n    {p}void {s}() -> m\n    void {f}() -> k\n", f = first, p = pre, s = second);
+                map_op(out, true, t.as_bytes());
+                for m in ["m", "k", first] {
+                    out.d(format!("MTH {} {}", hxs(first), hxs(m)));
+                }
+                out.d(format!("FRL {} {} 1 -", hxs(first), hxs("m")));
+                out.count("offset_zero_ambiguity");
+            }
+        }
+    }
     // long runs of one obfuscated method name: ambiguous only through one odd entry
     threshold_cases(out, rng, th, true, false);
     let sizes: Vec<usize> = if th { vec![2, 127, 128, 129, 130, 131, 255, 256, 257, 258, 300, 513, 600, 1025, 4097] } else { vec![129, 130, 131, 257, 600] };
@@ -983,8 +1018,9 @@ pub fn wf_line(rng: &mut Rng) -> String {
         _ => {
             let mut s = String::from("    ");
             let has_range = rng.pct(60);
+            let (ra, rb) = (numtxt(rng), numtxt(rng));
             if has_range {
-                s.push_str(&format!("{}:{}:", numtxt(rng), numtxt(rng)));
+                s.push_str(&format!("{}:{}:", ra, rb));
             }
             // type: no leading digit unless a range prefix is printed
             s.push_str(&ident(rng, 0, true, has_range));
@@ -997,9 +1033,12 @@ pub fn wf_line(rng: &mut Rng) -> String {
             s.push('(');
             s.push_str(&ident(rng, 0, true, true).replace(')', ""));
             s.push(')');
-            match rng.below(3) {
-                0 => {}
-                1 => s.push_str(&format!(":{}", numtxt(rng))),
+            match rng.below(10) {
+                0..=2 => {}
+                3..=5 => s.push_str(&format!(":{}", numtxt(rng))),
+                // the printed original range repeats the minified numbers (identity), or only its start
+                6 => s.push_str(&format!(":{}:{}", ra, rb)),
+                7 => s.push_str(&format!(":{}", ra)),
                 _ => s.push_str(&format!(":{}:{}", numtxt(rng), numtxt(rng))),
             }
             s.push_str(" -> ");
@@ -2491,6 +2530,26 @@ pub fn gen_c18(rng: &mut Rng, tier: &str, out: &mut Out) {
         }
         out.d(format!("UUID {}", hx(&b)));
     }
+    // every byte counts: trailing NUL padding up to a multiple of 8, one trailing NUL, a character
+    // torn at the end of the file
+    for base in [&b"a.B -> c:\n"[..], b"a.B -> c:\n    int f -> x\n", b"a.B -> c:\r\n", b"a.B -> c:\n    void go() -> y", b"# emoji: ", b""] {
+        for k in 0..=8usize {
+            let mut b = base.to_vec();
+            b.extend(std::iter::repeat(0u8).take(k));
+            out.d(format!("UUID {}", hx(&b)));
+            while b.len() % 8 != 0 {
+                b.push(0);
+            }
+            out.d(format!("UUID {}", hx(&b)));
+            out.count("uuid_trailing_nul");
+        }
+        for tail in [&b"\xf0"[..], b"\xf0\x9f", b"\xf0\x9f\x98", b"\xf0\x9f\x98\x80", b"\xc3", b"\xe2\x82", b"\xff", b"y\xf0\x9f"] {
+            let mut b = base.to_vec();
+            b.extend_from_slice(tail);
+            out.d(format!("UUID {}", hx(&b)));
+            out.count("uuid_torn_utf8");
+        }
+    }
     // sub-mappings (`section`) and clones after the parent has been queried: the identifier is a
     // function of the section's bytes alone
     for i in 0..(if th { 300 } else { 40 }) {
@@ -2566,6 +2625,23 @@ pub fn gen_c19(rng: &mut Rng, tier: &str, out: &mut Out) {
         }
         out.d(format!("META {}", hx(&t)));
         out.count("files");
+    }
+    // a class whose only member is a field line with a `start:end:` prefix (still a field record),
+    // directly and as the 50th item
+    for fl in ["    1:1:int counter -> a", "    3:4:int[] f -> b", "    0:0:o.T g -> c"] {
+        for lead in [0usize, 47, 48, 49] {
+            let mut t = String::new();
+            for i in 0..lead {
+                t.push_str(&format!("# comment {}\n", i));
+            }
+            t.push_str("o.A -> a:\n");
+            t.push_str(fl);
+            t.push('\n');
+            out.d(format!("META {}", hx(t.as_bytes())));
+            map_op(out, true, t.as_bytes());
+            out.d("REC".into());
+            out.count("prefixed_field_only");
+        }
     }
     // every spelling of a number as the LAST min_api header after a valid one (and alone)
     for v in ["-0", "-00", "+0", "0", "00", "+21", "+", "-", "-1", "0x10", "1_000", "1e3", " 21", "21 ", "4294967295", "4294967296", "2147483648", "-2147483648",
